@@ -58,6 +58,19 @@ pub struct BuildingNeeds {
 impl BuildingNeeds {
     /// Añade elemento de demanda del edificio, sumando los valores si ya se han definido para ese servicio
     pub fn add(&mut self, need: Needs) -> Result<(), EpbdError> {
+        // Las demandas de un mismo servicio deben tener el mismo número de pasos de cálculo
+        let cur_len = match need.service {
+            Service::ACS => self.ACS.as_ref().map(Vec::len),
+            Service::CAL => self.CAL.as_ref().map(Vec::len),
+            Service::REF => self.REF.as_ref().map(Vec::len),
+            _ => None,
+        };
+        if cur_len.map(|len| len != need.values.len()).unwrap_or(false) {
+            return Err(EpbdError::WrongInput(format!(
+                "Demandas del servicio {} con distinto número de pasos de cálculo",
+                need.service
+            )));
+        }
         let update = |cur_values: &Option<Vec<f32>>, new_values| {
             if let Some(nd) = cur_values {
                 Some(vecvecsum(nd, new_values))
